@@ -122,6 +122,7 @@ class Multiline:
     """
     for of in gfa_line.tagnames:
       self._check_single_definition(of, gfa_line.get(of))
+      self._check_datatype(of, gfa_line.get(of), gfa_line.get_datatype(of))
     for of in gfa_line.tagnames:
       self.add(of, gfa_line.get(of), gfa_line.get_datatype(of))
     return self
@@ -142,6 +143,21 @@ class Multiline:
         "Inconsistent values for header tag {} found\n".format(tagname)+
         "Previous definition: {}\n".format(prev)+
         "Current definition: {}".format(value))
+
+  def _check_datatype(self, tagname, value, datatype):
+    """
+    Raise if adding the value would be refused because of its datatype
+    (so that a refused header line is not partially merged).
+    """
+    prev = self.get(tagname)
+    if prev is None or self.vlevel <= 1:
+      return
+    if not isinstance(prev, gfapy.FieldArray):
+      if tagname in self.SINGLE_DEFINITION_TAGS:
+        return
+      prev = gfapy.FieldArray(self.get_datatype(tagname), [prev])
+    gfapy.FieldArray(prev.datatype, list(prev))._vpush(value, datatype,
+                                                       tagname)
 
   def _tags(self):
     """
